@@ -92,10 +92,19 @@ inductive TryRes where
   | nothing        -- not enough power (or nothing to do)
   | observedOk     -- marked observed (effect applied iff applicable)
   | abort          -- TryAttestation returned an error: the tally of this chain stops
+  | eventFailed    -- observed and applied like `observedOk`, but emitting the observation event failed
+                   -- (chain-info lookup): TryAttestation returns that error, the tally of this chain stops
 deriving Repr, DecidableEq
 
+/-- collaborator fault: for which attestations (nonce, hash) does the observation event fail? -/
+abbrev EventFault := Nat → Nat → Bool
+
+def noFault : EventFault := fun _ _ => false
+
+def faultOf (l : List (Nat × Nat)) : EventFault := fun n h => l.any (fun p => p.1 == n && p.2 == h)
+
 /-- `TryAttestation` on a (snapshot of an) attestation at nonce `lastObserved+1`. -/
-def tryAtt (s : St) (a : Att) (power : Nat → Nat) (total : Nat) : St × TryRes :=
+def tryAtt (s : St) (a : Att) (power : Nat → Nat) (total : Nat) (ef : EventFault := noFault) : St × TryRes :=
   if a.observed then (s, .abort) else
   if !(reaches power (66 * total / 100) a.votes 0) then (s, .nothing) else
   if a.nonce ≠ s.lastObserved + 1 then (s, .abort) else
@@ -106,7 +115,9 @@ def tryAtt (s : St) (a : Att) (power : Nat → Nat) (total : Nat) : St × TryRes
             atts := putAtt s.atts { a with observed := true },
             effects := if a.applicable then s.effects ++ [e] else s.effects,
             observations := s.observations ++ [e],
-            minted := if a.applicable then s.minted + a.amount else s.minted }, .observedOk)
+            minted := if a.applicable then s.minted + a.amount else s.minted },
+   -- the event is emitted AFTER the claim was applied: a failure there loses nothing but the event
+   if ef a.nonce a.hash then .eventFailed else .observedOk)
 
 def insertAsc (x : Nat) : List Nat → List Nat
   | [] => [x]
@@ -124,23 +135,25 @@ def attsAt (l : List Att) (n : Nat) : List Att :=
   (l.filter (fun a => a.nonce == n)).foldr insertByHash []
 
 /-- inner loop of `attestationTally` over the attestations of one nonce (snapshot values) -/
-def tallyAtts (s : St) (power : Nat → Nat) (total : Nat) (n : Nat) : List Att → St × Bool
+def stops (r : TryRes) : Bool := r == .abort || r == .eventFailed
+
+def tallyAtts (s : St) (power : Nat → Nat) (total : Nat) (n : Nat) (ef : EventFault := noFault) : List Att → St × Bool
   | [] => (s, false)
   | a :: rest =>
     if n = s.lastObserved + 1 then
-      if (tryAtt s a power total).2 == .abort then ((tryAtt s a power total).1, true)
-      else tallyAtts (tryAtt s a power total).1 power total n rest
-    else tallyAtts s power total n rest
+      if stops (tryAtt s a power total ef).2 then ((tryAtt s a power total ef).1, true)
+      else tallyAtts (tryAtt s a power total ef).1 power total n ef rest
+    else tallyAtts s power total n ef rest
 
 /-- outer loop over the ordered nonces; `snap` is the mapping read at the start -/
-def tallyKeys (s : St) (snap : List Att) (power : Nat → Nat) (total : Nat) : List Nat → St
+def tallyKeys (s : St) (snap : List Att) (power : Nat → Nat) (total : Nat) (ef : EventFault := noFault) : List Nat → St
   | [] => s
   | n :: rest =>
-    if (tallyAtts s power total n (attsAt snap n)).2 then (tallyAtts s power total n (attsAt snap n)).1
-    else tallyKeys (tallyAtts s power total n (attsAt snap n)).1 snap power total rest
+    if (tallyAtts s power total n ef (attsAt snap n)).2 then (tallyAtts s power total n ef (attsAt snap n)).1
+    else tallyKeys (tallyAtts s power total n ef (attsAt snap n)).1 snap power total ef rest
 
-def tally (s : St) (power : Nat → Nat) (total : Nat) : St :=
-  tallyKeys s s.atts power total (nonceKeys s.atts)
+def tally (s : St) (power : Nat → Nat) (total : Nat) (ef : EventFault := noFault) : St :=
+  tallyKeys s s.atts power total ef (nonceKeys s.atts)
 
 /-- `UpdateValidatorNoncesToLatest` (every 50th block) -/
 def catchUp (s : St) : St :=
